@@ -46,6 +46,9 @@ def pool_core(rng, n_extra):
     for s in ("0 0 aset", "1 5 aset", "1 6 aset", "1 5 aset 7 9 aset add", "2 5 aset", "1 5 aset 6 9 aset add", "7 9 aset 1 5 aset add"):
         P.append((q(s), "aset"))
     P.append((q("{1}"), "closure"))
+    # closures that captured values (their copies hold copies of those), alone and inside sequences
+    P += [(q("let A := 1; {A}"), "closure"), (q('let A := [1, 2]; let B := "x"; {A B}'), "closure"), (q("[(1, 2) (|A| {A})] elem ?1"), "closure"),
+          (q("[let A := 1; {A}]"), "seq"), (q('[(1, "a") (|A| {A 1 add})]'), "seq")]
     # seeded extras (thorough): random integers in random domains, random strings and nested sequences
     for _ in range(n_extra):
         k = rng.random()
@@ -199,6 +202,10 @@ def run(chk):
         for j in range(n):
             if B(mats["?le"], i, j) != (B(lt, i, j) or B(eq, i, j)) and types[i] == types[j] and types[i] != "f":
                 bad("le-is-not-lt-or-eq", a=desc(i), b=desc(j)); break
+    # "a value always equals its own copy": cell (i, i) compares two copies of pool value i -- every type, the hidden closure type included
+    for i in range(n):
+        if not B(eq, i, i) or B(lt, i, i) or B(gt, i, i):
+            bad("value-not-equal-to-its-own-copy:%s" % types[i], a=desc(i), spec=specs[i], eq=B(eq, i, i), lt=B(lt, i, i), gt=B(gt, i, i))
     triples = 0
     groups = {}
     for i, t in enumerate(types):
